@@ -1,6 +1,6 @@
 (* C14 — a clone is an equal and fully independent cache (abstract part; the shared-heap frame
    statement is Layer B, B/FrameB.v). *)
-Require Import LruV.T.TableA LruV.A.InvA LruV.B.FrameB LruV.B.StepB LruV.B.RefineLemmas LruV.B.CloneB LruV.B.TotalB.
+Require Import LruV.T.TableA LruV.A.InvA LruV.B.FrameB LruV.B.StepB LruV.B.RefineLemmas LruV.B.CloneB LruV.B.TotalB LruV.B.ReachB.
 
 Definition same_modulo_tokens (a b : entry) : Prop :=
   kid (ek a) = kid (ek b) /\ kheap (ek a) = kheap (ek b) /\ vtag (ev a) = vtag (ev b) /\ vheap (ev a) = vheap (ev b) /\ es a = es b.
@@ -81,6 +81,26 @@ Theorem C14_clone_no_fault : forall E b seal_c addrs ren r, RIg (bg b) -> do_clo
   (forall a, In a addrs -> a <> seal_c /\ ~ In a (gseal (bg b) :: glist (bg b))) ->
   exists r', bB_clone E b seal_c addrs ren = Some r'.
 Proof. exact clone_total. Qed.
+
+(* non-vacuity: a concrete two-entry structure is cloned into the seal 200 and the buckets 201, 202 of the same heap *)
+Definition C14_ex_k (i : N) : key := {| kid := i; ktok := 10 + i; kheap := 0 |}.
+Definition C14_ex_v (i : N) : val := {| vtok := 20 + i; vtag := i; vheap := 0 |}.
+Definition C14_ex_o (a : addr) : oracleB := {| ob := {| o_tomb := 0; o_reuse := false; o_alloc := true |}; ob_addr := a; ob_moves := [] |}.
+(* an empty cache (limit 1000, seal at 100) after two insertions into the buckets 1 and 2 *)
+Definition C14_ex_b2 : option bstate :=
+  match new_b 72 100 1000 0 with
+  | Some b0 => match stepB 72 24 b0 (Insert (C14_ex_k 1) (C14_ex_v 1)) (C14_ex_o 1) with
+               | Some (b1, _, _) => match stepB 72 24 b1 (Insert (C14_ex_k 2) (C14_ex_v 2)) (C14_ex_o 2) with Some (b2, _, _) => Some b2 | None => None end
+               | None => None end
+  | None => None end.
+Example C14_example_clone :
+  match C14_ex_b2 with
+  | Some b => match bB_clone 72 b 200 [201; 202] (fun t => 1000 + t) with
+              | Some (bc, evs) => map (fun e => (kid (ek e), ktok (ek e), vtok (ev e))) (ents (absB bc)) = [(1, 1011, 1021); (2, 1012, 1022)] /\
+                                  glist (bg bc) = [202; 201] /\ e_hashes evs = 2
+              | None => False end
+  | None => False end.
+Proof. vm_compute. repeat split; reflexivity. Qed.
 
 Print Assumptions C14_equal.
 Print Assumptions C14_fresh.
